@@ -1010,25 +1010,8 @@ class Exec:
                 return cand
         return None
 
-    def for_each_inductive(s, st, ic, cc, where, ac=None):
-        """Replace the unrolling of `iter.for_each(closure)` by induction over the iteration number K:
-           (1) run iteration 0 to learn what one iteration changes (counters +d, ledger entries at one index);
-           (2) hypothesise Inv(K): counters = entry + K*d, ledger[J] = after-state for the K indices already visited;
-           (3) from Inv(K), K symbolic, run ONE iteration and require Inv(K+1) on every heap cell / ledger entry;
-               the loop exit (next() == None) and every unwind edge are taken from Inv(K).
-           Returns the loop's outcomes, or None if the template does not fit (the caller then falls back to bounded unrolling)."""
-        st0 = st
-        # ---- (1) learn from iteration 0
-        firsts = [x for x in s.iter_next(st0.clone(), ic, (), where) if x[1] == 'some']
-        if len(firsts) != 1:
-            return None
-        s1, _, v = firsts[0]
-        rets = [x for x in s.call_closure2(s1, cc, [v] if ac is None else [s1.heap[ac], v], where) if x[1] == 'ret']
-        if len(rets) != 1:
-            return None
-        st1 = rets[0][0]
-        if ac is not None:
-            st1.heap[ac] = rets[0][2]
+    def _build_inv(s, st0, st1, where):
+        """Inv(K) from the entry state st0 and the state st1 after one iteration; returns (inv_state, template) or None"""
         K = mkint('K%d' % next(State._ids))
         inv = st0.clone()
         inv.pc = list(st0.pc)
@@ -1144,6 +1127,58 @@ class Exec:
         inv.events = list(st0.events) + ['... %s iterations (by induction: counters %s, one element of %s per iteration) ...' % (
             K, sorted({str(d) for d in deltas.values()}), sorted(a.name for a in ledger_t))]
         s.discharged.append(('loop invariant template instantiated', where))
+        tmpl = {'K': K, 'deltas': deltas, 'v0': v0, 'dv': dv, 'ledger': ledger_t, 'st0': st0, 'in_range': in_range}
+        return inv, tmpl
+
+    def _check_step(s, tmpl, sb, where):
+        """sb (the state after one more iteration from Inv(K)) must be Inv(K+1)"""
+        K, deltas, v0, dv, ledger_t, st0, in_range = (tmpl[k] for k in ('K', 'deltas', 'v0', 'dv', 'ledger', 'st0', 'in_range'))
+        try:
+            for cell in st0.heap:
+                for (path, a, b) in s._leaf_pairs(st0.heap[cell], sb.heap[cell]):
+                    d = deltas.get((cell, path))
+                    target = a if d is None else a + (K + 1) * d
+                    if not b.eq(target):
+                        s.require(sb, b == target, 'loop invariant not inductive (a counter / value does not advance as hypothesised)', where)
+        except ValueError as e:
+            raise Inconclusive('loop invariant template: heap shape changes inside the loop (%s)' % e)
+        s.require(sb, (bv(0) if sb.vid is None else sb.vid) == v0 + (K + 1) * dv, 'loop invariant not inductive (number of values produced per iteration)', where)
+        for arr in sb.status:
+            t0 = st0.status.get(arr, UNINIT)
+            if arr in ledger_t:
+                c, dj, after, head = ledger_t[arr]
+                if head is None:
+                    target = z3.If(in_range(c, dj, K + 1), after, t0)
+                else:
+                    target = z3.If(in_range(c, dj, K + 1), after, z3.If(s.J == c + K + 1, head, t0))
+            else:
+                target = t0
+            if not sb.status[arr].eq(target):
+                s.require(sb, sb.status[arr] == target, 'loop invariant not inductive (ownership state of %s after one more iteration)' % arr.name, where)
+
+    def for_each_inductive(s, st, ic, cc, where, ac=None):
+        """Replace the unrolling of `iter.for_each(closure)` by induction over the iteration number K:
+           (1) run iteration 0 to learn what one iteration changes (counters +d, ledger entries at one index);
+           (2) hypothesise Inv(K): counters = entry + K*d, ledger[J] = after-state for the K indices already visited;
+           (3) from Inv(K), K symbolic, run ONE iteration and require Inv(K+1) on every heap cell / ledger entry;
+               the loop exit (next() == None) and every unwind edge are taken from Inv(K).
+           Returns the loop's outcomes, or None if the template does not fit (the caller then falls back to bounded unrolling)."""
+        st0 = st
+        # ---- (1) learn from iteration 0
+        firsts = [x for x in s.iter_next(st0.clone(), ic, (), where) if x[1] == 'some']
+        if len(firsts) != 1:
+            return None
+        s1, _, v = firsts[0]
+        rets = [x for x in s.call_closure2(s1, cc, [v] if ac is None else [s1.heap[ac], v], where) if x[1] == 'ret']
+        if len(rets) != 1:
+            return None
+        st1 = rets[0][0]
+        if ac is not None:
+            st1.heap[ac] = rets[0][2]
+        built = s._build_inv(st0, st1, where)
+        if built is None:
+            return None
+        inv, tmpl = built
         # ---- (2)+(3) one iteration from Inv(K)
         out = []
         for (sa, kk, vv) in s.iter_next(inv, ic, (), where):
@@ -1158,30 +1193,7 @@ class Exec:
                         continue
                     if ac is not None:
                         sb.heap[ac] = r2
-                    # inductiveness: sb must be Inv(K+1)
-                    try:
-                        for cell in st0.heap:
-                            want = {}
-                            for (path, a, b) in s._leaf_pairs(st0.heap[cell], sb.heap[cell]):
-                                d = deltas.get((cell, path))
-                                target = a if d is None else a + (K + 1) * d
-                                if not b.eq(target):
-                                    s.require(sb, b == target, 'loop invariant not inductive (a counter / value does not advance as hypothesised)', where)
-                    except ValueError as e:
-                        raise Inconclusive('loop invariant template: heap shape changes inside the loop (%s)' % e)
-                    s.require(sb, (bv(0) if sb.vid is None else sb.vid) == v0 + (K + 1) * dv, 'loop invariant not inductive (number of values produced per iteration)', where)
-                    for arr in sb.status:
-                        t0 = st0.status.get(arr, UNINIT)
-                        if arr in ledger_t:
-                            c, dj, after, head = ledger_t[arr]
-                            if head is None:
-                                target = z3.If(in_range(c, dj, K + 1), after, t0)
-                            else:
-                                target = z3.If(in_range(c, dj, K + 1), after, z3.If(s.J == c + K + 1, head, t0))
-                        else:
-                            target = t0
-                        if not sb.status[arr].eq(target):
-                            s.require(sb, sb.status[arr] == target, 'loop invariant not inductive (ownership state of %s after one more iteration)' % arr.name, where)
+                    s._check_step(tmpl, sb, where)
         return out
 
     def for_each(s, st, itv, clo, where, fold_init=None, rev=False):
@@ -1739,6 +1751,16 @@ class Exec:
             outs.append((s2, 'unwind'))
         return outs
 
+    def join_blocks(s, fn):
+        """blocks with more than one predecessor (candidates for loop heads)"""
+        if not hasattr(fn, '_joins'):
+            cnt = {}
+            for b, stmts in fn.blocks.items():
+                for t in set(re.findall(r'bb\d+', stmts[-1] if stmts else '')):
+                    cnt[t] = cnt.get(t, 0) + 1
+            fn._joins = {b for b, n in cnt.items() if n >= 2 and b not in fn.cleanup}
+        return fn._joins
+
     # ---------------------------------------------------------------- one function body
     def run_fn(s, st, fn, args):
         s.fns_run.add(fn.name + (' [CTFE]' if fn.ctfe else ''))
@@ -1746,9 +1768,37 @@ class Exec:
         results, work = [], [(st, fr, 'bb0')]
         while work:
             st, fr, bb = work.pop()
-            key = (fn.name, bb, id(fr) if False else 0)
             cnt = st.visits.get((fn.name, bb), 0) + 1
             st.visits[(fn.name, bb)] = cnt
+            if s.inductive and bb in s.join_blocks(fn):
+                # MIR-level loop (a `for`/`while` in the crate's own body): same induction as for the adaptor pipelines, with the loop head
+                # as cut point - first arrival: remember the entry state; second arrival: learn what one iteration changes and continue
+                # from Inv(K); third arrival: require Inv(K+1) and stop this path (exits and unwind edges leave from Inv(K))
+                lk = ('loop', fn.name, bb)
+                if cnt == 1:
+                    st.notes = dict(st.notes)
+                    st.notes[lk] = ('entry', st.clone())
+                elif cnt == 2 and st.notes.get(lk, (None,))[0] == 'entry':
+                    built = s._build_inv(st.notes[lk][1], st, '%s:%s' % (fn.name.split('>::')[-1], bb))
+                    if built is None:
+                        if s.inductive == 'strict':
+                            raise Inconclusive('loop invariant template does not fit the MIR loop at %s:%s' % (fn.name.split('>::')[-1], bb))
+                    else:
+                        inv, tmpl = built
+                        # locals created inside the body keep the values of the learning iteration; they are reassigned before use
+                        for c_ in st.heap:
+                            if c_ not in inv.heap:
+                                inv.heap[c_] = deep(st.heap[c_])
+                        inv.visits = dict(st.visits)
+                        inv.notes = dict(st.notes)
+                        inv.notes[lk] = ('step', tmpl)
+                        inv.calls = st.calls
+                        inv.blocks = dict(st.blocks)
+                        st = inv
+                        s.inductive_used += 1
+                elif cnt == 3 and st.notes.get(lk, (None,))[0] == 'step':
+                    s._check_step(st.notes[lk][1], st, '%s:%s' % (fn.name.split('>::')[-1], bb))
+                    continue
             if cnt > 4 * (s.loop_cap + 2) and len(fn.blocks) > 1:
                 raise Inconclusive('unwinding assertion: block %s of %s visited more than %d times on one path' % (bb, fn.name, 4 * (s.loop_cap + 2)))
             stmts = fn.blocks[bb]
